@@ -7,9 +7,14 @@ UNIT = {
     'property': 'C01',
     'rlimit': 60,
     'verus_args': ['--edition=2024'],
+    'crate_attrs': ['#![feature(allocator_api)]'],
     'vacuity_floor': 6,
     'items': [
-        ('@raw', 'pub mod ph {\n' + MOD_HEAD),
+        ('@raw', 'pub mod phax {\n' + MOD_HEAD),
+        ('@file', 'prelude_std.rs'),
+        ('@raw', '}\n'),
+        ('@raw', 'pub mod ph {\n' + MOD_HEAD + '    use super::phax::*;\n'),
+        ('@broadcast', ['super::phax::axiom_yielded_vec']),
         (ATTR, ['enum Origin']),
         (ATTR, ['struct AttrChar']),
         (PHRASE, ['enum Phrase'], {'drop_derives': True}),
@@ -27,6 +32,40 @@ UNIT = {
         (PHRASE, ['impl Phrase', 'fn field_count'], {'ret': 'r', 'ensures': ['r == view(*self).len()']}),
         (PHRASE, ['impl AddAssign for Phrase', 'fn add_assign'], {'wrapper': 'impl Phrase', 'ensures': [
             'view(*final(self)) =~~= join(view(*old(self)), view(other))']}),
+        (PHRASE, ['impl Phrase', 'fn ifs_join'], {'ret': 'r',
+            'token_rewrites': [
+                ('''match vars.get(IFS).and_then(|v| v.value.as_ref()) {
+                        Some(Value::Scalar(value)) => value.chars().next(),
+                        Some(Value::Array(values)) => {
+                            values.first().and_then(|value| value.chars().next())
+                        }
+                        None => Some(' '),
+                    }
+                    .map(|c| AttrChar {
+                        value: c,
+                        origin: Origin::SoftExpansion,
+                        is_quoted: false,
+                        is_quoting: false,
+                    })''', 'verif_ifs_separator(vars)'),
+                ('''result.reserve_exact(
+                        i.as_slice().iter().map(|field| field.len()).sum::<usize>()
+                            + i.as_slice().len(),
+                    )''', 'verif_reserve_for_join(&mut result, &i)'),
+                ('for field in i', 'for field in verif_it: i'),
+            ],
+            'attrs': ['#[verifier::loop_isolation(false)]'],
+            'entry_snapshots': ['self'],
+            'ensures': ['r@ =~= join_with(view(self), ifs_separator(vars))'],
+            'loops': {0: {
+                'invariant': [
+                    'verif_it.seq().len() + 1 == view(verif_entry_self).len()',
+                    'forall|k: int| 0 <= k < verif_it.seq().len() ==> (#[trigger] verif_it.seq()[k])@ == view(verif_entry_self)[k + 1]',
+                    'result@ =~= join_with(view(verif_entry_self).subrange(0, 1 + verif_it.index()), separator)',
+                    'verif_it.index() == verif_it.seq().len() ==> result@ =~= join_with(view(verif_entry_self), separator)',
+                ],
+                'body_end': 'proof { let v = view(verif_entry_self); let k = verif_it.index() as int; assert(v.subrange(0, k + 2).drop_last() =~= v.subrange(0, k + 1)); assert(v.subrange(0, k + 2).last() == v[k + 1]); assert(v.subrange(0, v.len() as int) =~= v); }',
+            }},
+        }),
         ('@raw', '}\n'),
     ],
 }
